@@ -83,3 +83,60 @@ theorem tie_cosine (sqrt : α → α) (f1 f2 : List (List α)) :
   rw [foldl_index_zip (fun b1 b2 => blockDot b1 b2) f1 f2 0, zero_add, foldl_add_eq, foldl_add_eq, zero_add, zero_add]
 
 end SimVerif.Tie
+
+namespace SimVerif.Tie
+open SimVerif.Feature List
+variable {α : Type} [Field α] [LinearOrder α]
+
+/-- the body of the packing loop, as generated, is the model's `packStep` -/
+theorem from_vec_loop (v : List α) (k p : Nat) (a : List α) (f : List (List α)) :
+    foldl (fun (st : Nat × List α × List (List α)) (ic : α × Nat) =>
+        (let part := ic.2 % lanes
+         let acc := if decide (part = 0) = true then List.replicate lanes (0 : α) else st.2.1
+         let acc := List.set acc part ic.1
+         let fp := if decide (part = lanes - 1) = true then (st.2.2 ++ [acc], lanes) else (st.2.2, part)
+         (fp.2, acc, fp.1))) (p, a, f) (v.zipIdx k) =
+      ((packLoop v k { feature := f, acc := a, part := p }).part,
+       (packLoop v k { feature := f, acc := a, part := p }).acc,
+       (packLoop v k { feature := f, acc := a, part := p }).feature) := by
+  induction v generalizing k p a f with
+  | nil => simp [packLoop]
+  | cons x v ih =>
+    simp only [zipIdx_cons, foldl_cons, packLoop]
+    have hstep : packStep { feature := f, acc := a, part := p } k x =
+        { feature := (if k % lanes = lanes - 1 then f ++ [List.set (if k % lanes = 0 then zeros else a) (k % lanes) x] else f),
+          acc := List.set (if k % lanes = 0 then zeros else a) (k % lanes) x,
+          part := (if k % lanes = lanes - 1 then lanes else k % lanes) } := by
+      unfold packStep
+      by_cases h : k % lanes = lanes - 1 <;> simp [h]
+    rw [hstep]
+    have := ih (k + 1) (if k % lanes = lanes - 1 then lanes else k % lanes)
+      (List.set (if k % lanes = 0 then zeros else a) (k % lanes) x)
+      (if k % lanes = lanes - 1 then f ++ [List.set (if k % lanes = 0 then zeros else a) (k % lanes) x] else f)
+    rw [← this]
+    congr 1
+    by_cases h : k % lanes = lanes - 1
+    · have h0 : ¬ lanes - 1 = 0 := by decide
+      simp [h, h0]
+    · by_cases h0 : k % lanes = 0
+      · have h' : ¬ (0 = lanes - 1) := by decide
+        simp [h0, h', zeros]
+      · simp [h, h0]
+
+/-- **`Feature::from_vec(&Vec<f32>)` = `pack`** (blocks of `FEATURE_LANES_SIZE` lanes, the last one zero padded) -/
+theorem tie_from_vec (v : List α) : Gen.K.from_vec lanes v = pack v := by
+  unfold Gen.K.from_vec pack
+  have h := from_vec_loop v 0 0 (List.replicate lanes (0 : α)) []
+  simp only [zeros]
+  change (let r := foldl (fun (st : Nat × List α × List (List α)) (ic : α × Nat) =>
+        (let part := ic.2 % lanes
+         let acc := if decide (part = 0) = true then List.replicate lanes (0 : α) else st.2.1
+         let acc := List.set acc part ic.1
+         let fp := if decide (part = lanes - 1) = true then (st.2.2 ++ [acc], lanes) else (st.2.2, part)
+         (fp.2, acc, fp.1))) (0, List.replicate lanes (0 : α), []) (v.zipIdx 0);
+      if decide (r.1 < lanes) = true then r.2.2 ++ [r.2.1] else r.2.2) = _
+  rw [h]
+  simp only [decide_eq_true_eq]
+  rfl
+
+end SimVerif.Tie
